@@ -43,6 +43,22 @@ static void op_fp_param(int argc, char **argv) {
 	fprintf(OUT, " qnr=%d cnr=%d mod8=%d 2ad=%d\n", fp_prime_get_qnr(), fp_prime_get_cnr(), (int)fp_prime_get_mod8(), fp_prime_get_2ad());
 }
 
+
+/* fp_sel <id> : "an unsupported parameter is reported": call fp_param_set with an arbitrary identifier and print what the
+ * getters say before and after, and whether an error was reported */
+static void op_fp_sel(int argc, char **argv) {
+	if (argc < 2) { fprintf(OUT, "bad-args\n"); return; }
+	int id = parse_int(argv[1]);
+	int caught = 0, id0 = fp_param_get();
+	fprintf(OUT, "id0=%d p0=", id0);
+	raw_print(fp_prime_get(), RLC_FP_DIGS, 0);
+	RLC_TRY { fp_param_set(id); } RLC_CATCH_ANY { caught = 1; }
+	int e = take_err();
+	fprintf(OUT, " res=%s id1=%d p1=", (e || caught) ? "err" : "ok", fp_param_get());
+	raw_print(fp_prime_get(), RLC_FP_DIGS, 0);
+	fputc('\n', OUT);
+}
+
 /* fp2 <op> <alias> <a> <b> */
 static void op_fp2(int argc, char **argv) {
 	if (argc < 5) { fprintf(OUT, "bad-args\n"); return; }
@@ -236,7 +252,7 @@ static void op_fp_write_bin(int argc, char **argv) {
 }
 
 const op_t ops_fp[] = {
-	{"fp_param", op_fp_param}, {"fp2", op_fp2}, {"fp1", op_fp1}, {"fpe", op_fpe}, {"fpd", op_fpd}, {"fpraw", op_fpraw},
+	{"fp_param", op_fp_param}, {"fp_sel", op_fp_sel}, {"fp2", op_fp2}, {"fp1", op_fp1}, {"fpe", op_fpe}, {"fpd", op_fpd}, {"fpraw", op_fpraw},
 	{"fp_read_bin", op_fp_read_bin}, {"fp_write_bin", op_fp_write_bin},
 	{NULL, NULL}
 };
